@@ -1,2 +1,3 @@
 import ArtGen.Kernels
 import ArtGen.Control
+import ArtGen.Fusion
